@@ -124,6 +124,10 @@ impl Parse for FmtAttribute {
             args: input.parse_terminated(FmtArgument::parse, token::Comma)?,
         };
         parsed.args.pop_punct();
+        if parsed.args.is_empty() {
+            // `"lit",` without arguments: the expansions append their own separator
+            parsed.comma = None;
+        }
         Ok(parsed)
     }
 }
